@@ -12,11 +12,20 @@
 (*   "keep_flag"    the thread stays and resumes after a late seek but leaves *)
 (*                  reached_end set: the sound stops as soon as the ring runs *)
 (*                  dry although audio is still to come                       *)
+(*   "idle_on_end_seek"  a seek to or beyond the end of the audio, read while  *)
+(*                  the thread is still decoding, sends the thread idle without *)
+(*                  publishing reached_end: the sound never finishes           *)
+(*   "exit_on_stopping"  the idle thread ends as soon as the sound is fading    *)
+(*                  out (Stopping): seeks written during the fade have no reader *)
+(* Seek targets may include Len0 ("to or beyond the end"): the decoder pushes  *)
+(* one silent frame (-1) for it and has reached the end.  Stop begins a fade   *)
+(* (Stopping) that the audio thread ends after FadeFrames more output frames.  *)
 EXTENDS Integers, Sequences, TLC
 CONSTANTS Len0,      \* frames in the stream
           R,         \* ring capacity
           Xs,        \* seek targets
           MaxSeeks,
+          FadeFrames, \* length of a stop fade in output frames (0 = stop() is never called)
           Variant
 VARIABLES dpos,      \* decoder: transport position
           playing,   \* decoder: transport.playing (FALSE once the last frame has been pushed)
@@ -24,74 +33,99 @@ VARIABLES dpos,      \* decoder: transport position
           reached,   \* shared.reached_end
           cmd,       \* the seek command slot (0 = empty, else target + 1)
           dpc,       \* decoder thread: "run", "clear" (between taking a late seek and clearing reached_end), "exited"
-          sstate,    \* "Playing" / "Stopped"
+          sstate,    \* "Playing" / "Stopping" / "Stopped"
+          fade,      \* output frames left of the stop fade
           nseek,
           resumed,   \* ghost: a late seek has been served completely and the end has not been reached again
           last,      \* ghost: last frame heard (-1 = none)
           bad
-vars == <<dpos, playing, ring, reached, cmd, dpc, sstate, nseek, resumed, last, bad>>
+vars == <<dpos, playing, ring, reached, cmd, dpc, sstate, fade, nseek, resumed, last, bad>>
+Alive == sstate \in {"Playing", "Stopping"}
 
 Init == /\ dpos = 0 /\ playing = TRUE /\ ring = <<>> /\ reached = FALSE /\ cmd = 0 /\ dpc = "run"
-        /\ sstate = "Playing" /\ nseek = 0 /\ resumed = FALSE /\ last = -1 /\ bad = ""
+        /\ sstate = "Playing" /\ fade = 0 /\ nseek = 0 /\ resumed = FALSE /\ last = -1 /\ bad = ""
 
 \* the handle: seek_to(x) while the sound is alive (the command slot keeps the latest value only)
-Seek(x) == /\ sstate = "Playing" /\ nseek < MaxSeeks
+Seek(x) == /\ Alive /\ nseek < MaxSeeks
            /\ cmd' = x + 1 /\ nseek' = nseek + 1
-           /\ UNCHANGED <<dpos, playing, ring, reached, dpc, sstate, resumed, last, bad>>
+           /\ UNCHANGED <<dpos, playing, ring, reached, dpc, sstate, fade, resumed, last, bad>>
+
+\* the handle: stop(tween) - the sound fades out for FadeFrames output frames and is still advancing meanwhile
+Stop == /\ sstate = "Playing" /\ FadeFrames > 0
+        /\ sstate' = "Stopping" /\ fade' = FadeFrames
+        /\ UNCHANGED <<dpos, playing, ring, reached, cmd, dpc, nseek, resumed, last, bad>>
 
 \* position after read_commands()
 Taken == IF cmd # 0 THEN cmd - 1 ELSE dpos
 
 DExit == /\ dpc = "run" /\ sstate = "Stopped"
          /\ dpc' = "exited"
-         /\ UNCHANGED <<dpos, playing, ring, reached, cmd, sstate, nseek, resumed, last, bad>>
+         /\ UNCHANGED <<dpos, playing, ring, reached, cmd, sstate, fade, nseek, resumed, last, bad>>
+
+\* (variant) the idle thread gives up as soon as the sound is fading out
+DExitStopping == /\ Variant = "exit_on_stopping" /\ dpc = "run" /\ sstate = "Stopping" /\ ~playing
+                 /\ dpc' = "exited"
+                 /\ UNCHANGED <<dpos, playing, ring, reached, cmd, sstate, fade, nseek, resumed, last, bad>>
 
 \* all of the audio decoded: read the commands; a seek brings the position back (run_after_end)
-DAfterEnd == /\ dpc = "run" /\ sstate = "Playing" /\ ~playing /\ cmd # 0
-             /\ dpos' = cmd - 1 /\ cmd' = 0 /\ playing' = TRUE
-             /\ IF Variant = "keep_flag" THEN dpc' = "run" /\ resumed' = TRUE ELSE dpc' = "clear" /\ resumed' = resumed
-             /\ UNCHANGED <<ring, reached, sstate, nseek, last, bad>>
+DAfterEnd == /\ dpc = "run" /\ Alive /\ ~playing /\ cmd # 0
+             /\ ~(Variant = "exit_on_stopping" /\ sstate = "Stopping")
+             /\ dpos' = cmd - 1 /\ cmd' = 0
+             /\ IF cmd - 1 >= Len0
+                THEN playing' = FALSE /\ dpc' = "run" /\ resumed' = resumed          \* still outside the audio: keeps idling
+                ELSE /\ playing' = TRUE
+                     /\ IF Variant = "keep_flag" THEN dpc' = "run" /\ resumed' = TRUE ELSE dpc' = "clear" /\ resumed' = resumed
+             /\ UNCHANGED <<ring, reached, sstate, fade, nseek, last, bad>>
 
 DClear == /\ dpc = "clear"
           /\ reached' = FALSE /\ resumed' = TRUE /\ dpc' = "run"
-          /\ UNCHANGED <<dpos, playing, ring, cmd, sstate, nseek, last, bad>>
+          /\ UNCHANGED <<dpos, playing, ring, cmd, sstate, fade, nseek, last, bad>>
 
 \* ring not full: read the commands, push the frame at the position, notice the end
-DPush == /\ dpc = "run" /\ sstate = "Playing" /\ playing /\ Len(ring) < R
+DPush == /\ dpc = "run" /\ Alive /\ playing /\ Len(ring) < R
          /\ LET p == Taken
+                out == p >= Len0                  \* sought to or beyond the end: one silent frame, then the end
                 end == p + 1 >= Len0 IN
-            /\ ring' = Append(ring, p) /\ dpos' = p + 1 /\ cmd' = 0
-            /\ playing' = ~end
-            /\ reached' = (IF end THEN TRUE ELSE reached)
-            /\ resumed' = (IF end THEN FALSE ELSE resumed)
-            /\ dpc' = (IF end /\ Variant = "exit_at_end" THEN "exited" ELSE "run")
-         /\ UNCHANGED <<sstate, nseek, last, bad>>
+            IF out /\ Variant = "idle_on_end_seek"
+            THEN /\ dpos' = p /\ cmd' = 0 /\ playing' = FALSE
+                 /\ UNCHANGED <<ring, reached, resumed, dpc>>
+            ELSE /\ ring' = Append(ring, IF out THEN -1 ELSE p) /\ dpos' = (IF out THEN p ELSE p + 1) /\ cmd' = 0
+                 /\ playing' = ~end
+                 /\ reached' = (IF end THEN TRUE ELSE reached)
+                 /\ resumed' = (IF end THEN FALSE ELSE resumed)
+                 /\ dpc' = (IF end /\ Variant = "exit_at_end" THEN "exited" ELSE "run")
+         /\ UNCHANGED <<sstate, fade, nseek, last, bad>>
 
 \* one output frame: starved (nothing to play, more to come) / pop / notice the end
-AFrame == /\ sstate = "Playing"
-          /\ ~(ring = <<>> /\ ~reached)
-          /\ LET f == IF ring = <<>> THEN last ELSE Head(ring)
+AFrame == /\ Alive
+          /\ ~(ring = <<>> /\ ~reached /\ sstate = "Playing")
+          /\ LET starved == ring = <<>> /\ ~reached                 \* (only while fading: the fade goes on in silence)
+                 f == IF ring = <<>> \/ Head(ring) = -1 THEN last ELSE Head(ring)
                  rest == IF ring = <<>> THEN ring ELSE Tail(ring)
-                 stop == reached /\ rest = <<>> IN
+                 fadeOut == sstate = "Stopping" /\ fade = 1
+                 stop == (~starved /\ reached /\ rest = <<>>) \/ fadeOut IN
              /\ ring' = rest /\ last' = f
-             /\ sstate' = (IF stop THEN "Stopped" ELSE "Playing")
+             /\ fade' = (IF sstate = "Stopping" THEN fade - 1 ELSE fade)
+             /\ sstate' = (IF stop THEN "Stopped" ELSE sstate)
              /\ bad' = (IF bad # "" THEN bad
-                        ELSE IF ring # <<>> /\ last # -1 /\ f # last + 1 /\ f \notin Xs THEN "frames_in_order_but_for_seeks"
-                        ELSE IF stop /\ resumed THEN "stopped_while_audio_still_to_come"
+                        ELSE IF ring # <<>> /\ Head(ring) # -1 /\ last # -1 /\ f # last + 1 /\ f \notin Xs THEN "frames_in_order_but_for_seeks"
+                        ELSE IF stop /\ ~fadeOut /\ resumed THEN "stopped_while_audio_still_to_come"
                         ELSE "")
           /\ UNCHANGED <<dpos, playing, reached, cmd, dpc, nseek, resumed>>
 
-Next == (\E x \in Xs : Seek(x)) \/ DExit \/ DAfterEnd \/ DClear \/ DPush \/ AFrame
+Next == (\E x \in Xs : Seek(x)) \/ Stop \/ DExit \/ DExitStopping \/ DAfterEnd \/ DClear \/ DPush \/ AFrame
 Spec == Init /\ [][Next]_vars
-FairSpec == Spec /\ WF_vars(DExit \/ DAfterEnd \/ DClear \/ DPush) /\ WF_vars(AFrame)
+FairSpec == Spec /\ WF_vars(DExit \/ DExitStopping \/ DAfterEnd \/ DClear \/ DPush) /\ WF_vars(AFrame)
 
-TypeOK == /\ dpos \in 0..Len0 /\ playing \in BOOLEAN /\ Len(ring) <= R /\ reached \in BOOLEAN /\ cmd \in 0..Len0
-          /\ dpc \in {"run", "clear", "exited"} /\ sstate \in {"Playing", "Stopped"} /\ nseek \in 0..MaxSeeks
+TypeOK == /\ dpos \in 0..Len0 /\ fade \in 0..FadeFrames /\ playing \in BOOLEAN /\ Len(ring) <= R /\ reached \in BOOLEAN /\ cmd \in 0..Len0 + 1
+          /\ dpc \in {"run", "clear", "exited"} /\ sstate \in {"Playing", "Stopping", "Stopped"} /\ nseek \in 0..MaxSeeks
 PropertyHolds == bad = ""
 \* while the sound is alive somebody reads its seek commands
-SeeksHaveAReader == ~(dpc = "exited" /\ sstate = "Playing")
+SeeksHaveAReader == ~(dpc = "exited" /\ Alive)
 \* a seek written while the sound is alive is taken by the decoder, unless the sound ends first
 SeekServed == (cmd # 0) ~> (cmd = 0 \/ sstate = "Stopped")
+\* every finite sound comes to an end (seeks are finitely many), wherever it is sought to
+SoundEnds == <>(sstate = "Stopped")
 \* ... and the thread goes once the sound has stopped
 ThreadEnds == (sstate = "Stopped") ~> (dpc = "exited")
 \* witnesses (must be violated): a late seek is served, and the sound plays through to the end afterwards
